@@ -5,6 +5,7 @@ import (
 	"encoding/binary"
 	"fmt"
 	"io"
+	"net"
 	"runtime"
 	"runtime/debug"
 	"sync"
@@ -126,6 +127,31 @@ func appendToValues(avps []*diam.AVP) {
 			if cap(v.AVP) > len(v.AVP) {
 				_ = append(v.AVP, diam.NewAVP(9009, 0x40, 0, datatype.Unsigned32(0xEEEEEEEE)))
 			}
+		}
+	}
+}
+
+// c06Scribble overwrites, in place, every byte-slice value of a decoded tree.
+func c06Scribble(avps []*diam.AVP, b byte) {
+	fill := func(p []byte) {
+		for i := range p {
+			p[i] = b
+		}
+	}
+	for _, a := range avps {
+		switch v := a.Data.(type) {
+		case datatype.Unknown:
+			fill(v)
+		case datatype.OctetString:
+			// (a string: immutable)
+		case datatype.Address:
+			fill(v)
+		case datatype.IPv4:
+			fill(v)
+		case datatype.IPv6:
+			fill(v)
+		case *diam.GroupedAVP:
+			c06Scribble(v.AVP, b)
 		}
 	}
 }
@@ -350,6 +376,95 @@ func TestC06(t *testing.T) {
 	// and the default dictionary (Failed-AVP with an offending member copied as received).  The
 	// property is conditional: whatever the reader does return must not change afterwards
 	dctx := defCtx(t)
+	// an application that owns a message may write into the values it was given (fill in an
+	// address it received as all-zero, mask a prefix, blank a secret): every returned message
+	// is a private copy, so such a write is never seen through another message - nor through
+	// the standard library's shared values.  Half of the fixed-size AVPs here carry a payload
+	// of the wrong size (the decoder substitutes a value of the right size).
+	rec.Suite("values-written-in-place", rec.N(3000, 300000), func(c *ev.Case) {
+		r := c.R
+		mk := func(j int) []byte {
+			var nodes []*refcodec.Node
+			for k := 2 + r.IntN(6); k > 0; k-- {
+				code := []uint32{9015, 9016, 9017, 9001, 9023, 0x00E10001}[r.IntN(6)]
+				n := &refcodec.Node{Code: code, Flags: 0x40, Kind: refcodec.Unknown}
+				if code == 9023 {
+					n.Flags, n.Vendor = 0x80, 10415
+				}
+				var sz int
+				switch code {
+				case 9015:
+					sz = []int{6, 18, 6, 18, 6, 18, 6, 10}[r.IntN(8)]
+				case 9016:
+					sz = []int{4, 4, 4, 4, 4, 4, 3, 16}[r.IntN(8)]
+				case 9017, 9023:
+					sz = []int{16, 16, 0, 4, 15, 17}[r.IntN(6)]
+				default:
+					sz = r.IntN(24)
+				}
+				n.B = make([]byte, sz)
+				if r.IntN(3) != 0 {
+					for i := range n.B {
+						n.B[i] = byte(r.Uint32())
+					}
+				}
+				if code == 9015 && sz >= 2 {
+					n.B[0], n.B[1] = 0, byte(1+r.IntN(2))
+				}
+				if r.IntN(4) == 0 {
+					n = &refcodec.Node{Code: 9018, Flags: 0x40, Kind: refcodec.Grouped, Kids: []*refcodec.Node{n}}
+				}
+				nodes = append(nodes, n)
+			}
+			return refcodec.EncodeMessage(refcodec.Header{Version: 1, Flags: 0x80, Code: 8388000, HopByHop: uint32(j + 1), EndToEnd: 1}, nodes)
+		}
+		var kept []*diam.Message
+		var before []snapshot
+		K := 2 + r.IntN(4)
+		for j := 0; j < K; j++ {
+			w := mk(j)
+			m, err := diam.ReadMessage(bytes.NewReader(w), ctx.Parser)
+			if err != nil {
+				c.Event("wrong_size_rejected", 1)
+				continue
+			}
+			sn, err := snap(m)
+			if err != nil {
+				c.Fail(ev.Sig{"op": "setup"}, w, nil, "snapshot: %v", err)
+				return
+			}
+			// the owner of an earlier message writes into its values ...
+			if len(kept) > 0 && r.IntN(2) == 0 {
+				v := r.IntN(len(kept))
+				c06Scribble(kept[v].AVP, byte(0xA0+j))
+				if sv, err := snap(kept[v]); err == nil {
+					before[v] = sv
+				}
+			}
+			kept = append(kept, m)
+			before = append(before, sn)
+		}
+		if len(kept) < 2 {
+			return
+		}
+		// ... and the owner of the last one into its own
+		c06Scribble(kept[len(kept)-1].AVP, 0xEE)
+		for v := 0; v < len(kept)-1; v++ {
+			after, err := snap(kept[v])
+			if err != nil || !bytes.Equal(after.wire, before[v].wire) || after.str != before[v].str {
+				c.Fail(ev.Sig{"op": "retained-changed", "what": "written-through-another-message"}, before[v].wire, nil, "message %d of %d, kept by its owner, changed when the owner of another message wrote into the values of its own (err=%v; first difference of the images at byte %d)", v, len(kept), err, firstDiff(after.wire, before[v].wire))
+				return
+			}
+		}
+		if !net.IPv6zero.Equal(net.ParseIP("::")) || !net.IPv4zero.Equal(net.ParseIP("0.0.0.0")) || !net.IPv6unspecified.Equal(net.ParseIP("::")) || !net.IPv4bcast.Equal(net.ParseIP("255.255.255.255")) || !net.IPv6loopback.Equal(net.ParseIP("::1")) {
+			c.Fail(ev.Sig{"op": "retained-changed", "what": "standard-library-value"}, nil, nil, "after an application wrote into the values of a message it owns, one of the net package's shared addresses is no longer what it was (IPv6zero=%v IPv4zero=%v)", net.IPv6zero, net.IPv4zero)
+			copy(net.IPv6zero, make([]byte, 16))
+			copy(net.IPv4zero, net.IPv4(0, 0, 0, 0))
+			return
+		}
+		c.Class("values-written-in-place/kept=%d", len(kept))
+		c.Event("retained_checked", len(kept)-1)
+	})
 	rec.Suite("doubtful-messages", rec.N(6000, 600000), func(c *ev.Case) {
 		r := c.R
 		cx, cmd := ctx, uint32(8388000)
